@@ -485,6 +485,71 @@ def silent_clients(ctx):
             ctx.violation("serve() did not return after the shutdown signal while silent clients were connected", case)
 
 
+def oversized_head_only(ctx):
+    """a client declares a body above max_content_length and sends only the request head: the 413 is the answer to the head - it
+    arrives long before the connection time-out and without the server waiting for (or taking in) the declared body"""
+    import shutil
+    import tempfile
+    from radicale import config, server
+    from common import quiet_radicale
+    quiet_radicale()
+    rng = ctx.rng("oversized")
+    for rnd in range(ctx.n(3, 12)):
+        limit = rng.choice([50, 1000, 100000])
+        declared = limit + rng.choice([1, 1000, 50_000_000])
+        sent = rng.choice([0, 0, 10])          # bytes of the body that follow the head at once
+        method = rng.choice(["PUT", "PROPFIND", "REPORT", "MKCALENDAR", "PROPPATCH"])
+        timeout = 6
+        s0 = socket.socket()
+        s0.bind(("127.0.0.1", 0))
+        port = s0.getsockname()[1]
+        s0.close()
+        folder = tempfile.mkdtemp(prefix="rverif-c20o-")
+        conf = config.load()
+        conf.update({"server": {"hosts": "127.0.0.1:%d" % port, "max_connections": "2", "timeout": str(timeout), "max_content_length": str(limit)},
+                     "storage": {"filesystem_folder": folder}, "auth": {"type": "none"}}, "verif", privileged=True)
+        sd_in, sd_out = socket.socketpair()
+        th = threading.Thread(target=server.serve, args=(conf, sd_out), daemon=True)
+        th.start()
+        res = {"status_line": None, "answered_in": None}
+        c = None
+        try:
+            for _ in range(100):
+                try:
+                    c = socket.create_connection(("127.0.0.1", port), timeout=5)
+                    break
+                except ConnectionRefusedError:
+                    time.sleep(0.05)
+            t0 = time.time()
+            c.sendall(("%s /u/x.ics HTTP/1.1\r\nHost: localhost\r\nContent-Type: text/calendar\r\nContent-Length: %d\r\n\r\n"
+                       % (method, declared)).encode() + b"x" * sent)
+            c.settimeout(timeout / 2)
+            try:
+                data = b""
+                while b"\r\n" not in data:
+                    chunk = c.recv(4096)
+                    if not chunk:
+                        break
+                    data += chunk
+                res["status_line"] = data.split(b"\r\n")[0].decode("ascii", "replace")
+                res["answered_in"] = round(time.time() - t0, 2)
+            except (socket.timeout, TimeoutError):
+                res["status_line"] = "no answer within %.1f s (connection time-out %d s)" % (timeout / 2, timeout)
+            except OSError as e:
+                res["status_line"] = repr(e)[:80]
+        finally:
+            if c is not None:
+                c.close()
+            sd_in.close()
+            th.join(timeout=timeout + 6)
+            shutil.rmtree(folder, ignore_errors=True)
+        case = dict(res, method=method, max_content_length=limit, declared=declared, body_bytes_sent=sent, timeout_s=timeout)
+        ctx.case("oversized-head:%s" % method, sample=case, key=["oversized", rnd], nontrivial=True)
+        if " 413 " not in (res["status_line"] or "") + " ":
+            ctx.violation("a request declaring %d body bytes (limit %d) whose body is not sent was not answered 413 at once: %s"
+                          % (declared, limit, res["status_line"]), case)
+
+
 def run(ctx):
     ctx.extra["rule"] = ("(a) environment schedules of 1-40 events (arrive / finish / loop / signal) x max_connections in {0,1,2,3,5} driving the "
                          "real serve() loop through scripted select/server/socket stand-ins; (b) Content-Length gate; (c) real sockets with a "
@@ -496,3 +561,4 @@ def run(ctx):
     gate(ctx)
     real_sockets(ctx)
     silent_clients(ctx)
+    oversized_head_only(ctx)
